@@ -19,6 +19,7 @@ import (
 	"github.com/semihalev/sdns/internal/verif/vlib"
 	"github.com/semihalev/sdns/middleware"
 	"github.com/semihalev/sdns/middleware/cache"
+	"github.com/semihalev/sdns/middleware/dns64"
 	"github.com/semihalev/sdns/middleware/edns"
 )
 
@@ -77,7 +78,24 @@ func fq(tok string) string {
 	if tok[0] == 'p' {
 		return "w" + tok[1:] + ".pz.test." // an owner of the signed proof zone (RFC 8198 synthesis)
 	}
+	if tok[0] == 'm' {
+		return "n" + tok[1:] + ".z.test." // the AAAA side of name n<k>
+	}
 	return tok + ".z.test."
+}
+
+// qtypeOf: m<k> is the AAAA question for the name whose A question is n<k>.
+func qtypeOf(tok string) uint16 {
+	if tok[0] == 'm' {
+		return dns.TypeAAAA
+	}
+	return dns.TypeA
+}
+
+func mkAAAA(owner string, ttl uint32, idx, mark byte) *dns.AAAA {
+	ip := net.ParseIP("2001:db8:ffff::")
+	ip[14], ip[15] = idx, mark
+	return &dns.AAAA{Hdr: dns.RR_Header{Name: owner, Rrtype: dns.TypeAAAA, Class: dns.ClassINET, Ttl: ttl}, AAAA: ip}
 }
 
 // waitRoom makes sure the current real second has at least 60 ms left, so
@@ -100,7 +118,7 @@ func parseUp(s string) map[string]*specT {
 		f := strings.Split(rest, ":")
 		sp := &specT{name: name, kind: f[0][0], ans: parseItems(f[1]), ns: parseItems(f[2])}
 		if sp.kind == 'c' {
-			sp.tgt = "n" + f[0][1:]
+			sp.tgt = name[:1] + f[0][1:] // an alias is chased with the question's own type
 			if f[0][1] == 'p' {
 				sp.tgt = f[0][1:] // alias onto a name of the proof zone
 			}
@@ -144,6 +162,8 @@ func (sp *specT) build(req *dns.Msg, base int64) *dns.Msg {
 			if sp.kind == 'c' && first {
 				m.Answer = append(m.Answer, &dns.CNAME{Hdr: dns.RR_Header{Name: owner, Rrtype: dns.TypeCNAME, Class: dns.ClassINET, Ttl: it.ttl}, Target: fq(sp.tgt)})
 				first = false
+			} else if sp.kind == 'p' && sp.name[0] == 'm' {
+				m.Answer = append(m.Answer, mkAAAA(owner, it.ttl, byte(i), byte(sp.mark)))
 			} else if sp.kind == 'p' {
 				a := mkA(owner, it.ttl, byte(sp.mark))
 				a.A[2] = byte(i)
@@ -155,6 +175,8 @@ func (sp *specT) build(req *dns.Msg, base int64) *dns.Msg {
 			sg.Labels = 3
 			if sp.kind == 'c' {
 				sg.TypeCovered = dns.TypeCNAME
+			} else if sp.name[0] == 'm' {
+				sg.TypeCovered = dns.TypeAAAA
 			}
 			m.Answer = append(m.Answer, sg)
 		}
@@ -209,9 +231,12 @@ func (u *upstream) ServeDNS(ctx context.Context, ch *middleware.Chain) {
 		return
 	}
 	tok := strings.TrimSuffix(strings.ToLower(req.Question[0].Name), ".z.test.")
+	if req.Question[0].Qtype == dns.TypeAAAA && strings.HasPrefix(tok, "n") {
+		tok = "m" + tok[1:]
+	}
 	u.calls[tok]++
 	sp := u.script[tok]
-	if sp == nil || req.Question[0].Qtype != dns.TypeA {
+	if sp == nil || req.Question[0].Qtype != qtypeOf(tok) {
 		ch.Cancel() // silent: nothing is written, nothing is admitted
 		return
 	}
@@ -234,6 +259,7 @@ type orec struct {
 	lim       string
 	nsLife    int64 // permitted lifetime of its authority records alone (>= life)
 	nsLim     string
+	negTTL    int64 // kind d: min(SOA TTL, SOA minimum) of the denial, -1 otherwise
 	lastShown int64
 	mark      int
 }
@@ -283,12 +309,14 @@ func histNew(f []string) vlib.Res {
 	cfg := &config.Config{CacheSize: 1024, Expire: histExpire, CookieSecret: "6c6f6f6b61686172646c6f6f6b6168617264"}
 	cfg.ECS = config.ECSConfig{Enabled: true, ForwardV4Max: 24, ForwardV6Max: 56, MinScopeV4: 24, MinScopeV6: 56,
 		ClientNetworks: []string{"198.51.100.0/24"}, CacheLimitTTL: config.Duration{Duration: time.Duration(capS) * time.Second}}
+	cfg.DNS64 = config.DNS64Config{Enabled: true, Prefixes: []string{"2001:db8:64::/96"}}
 	h := &histT{ecsCap: capS, known: map[slotKey]*cache.CacheEntry{}, led: map[slotKey]*orec{}, gens: map[slotKey]int{},
 		captured: map[string]*cache.CacheEntry{}, capGen: map[string]int{}, capHad: map[string]bool{}, cuts: map[string]*orec{},
 		origins: map[string]*orec{}, shown: map[string]int64{}}
 	h.up = &upstream{script: map[string]*specT{}, calls: map[string]int{}, answered: map[string]int{}}
 	reg := middleware.NewRegistry()
 	reg.Register("edns", func(c *config.Config) middleware.Handler { return edns.New(c) })
+	reg.Register("dns64", func(c *config.Config) middleware.Handler { return dns64.New(c) })
 	reg.Register("cache", func(c *config.Config) middleware.Handler { h.c = cache.New(c); return h.c })
 	reg.Register("upstream", func(c *config.Config) middleware.Handler { return h.up })
 	h.pipe = reg.Build(cfg)
@@ -335,12 +363,12 @@ func slotScope(scoped bool) netip.Prefix {
 }
 
 func keyOf(tok string, scoped bool) uint64 {
-	return cache.VerifC04Key(dns.Question{Name: fq(tok), Qtype: dns.TypeA, Qclass: dns.ClassINET}, false, slotScope(scoped))
+	return cache.VerifC04Key(dns.Question{Name: fq(tok), Qtype: qtypeOf(tok), Qclass: dns.ClassINET}, false, slotScope(scoped))
 }
 
 func mkReq(tok string, ecs, do bool) *dns.Msg {
 	req := new(dns.Msg)
-	req.SetQuestion(fq(tok), dns.TypeA)
+	req.SetQuestion(fq(tok), qtypeOf(tok))
 	req.RecursionDesired = true
 	req.SetEdns0(4096, do)
 	if ecs {
@@ -394,15 +422,17 @@ func markFresh(recs []recTok, answered map[string]int, script map[string]*specT)
 	for i := range recs {
 		r := &recs[i]
 		sp := script[r.tok]
-		r.fresh = r.tok[0] == 'n' && answered[r.tok] > 0 && sp != nil && (r.mark < 0 || r.mark == sp.mark)
+		r.fresh = isNameTok(r.tok) && answered[r.tok] > 0 && sp != nil && (r.mark < 0 || r.mark == sp.mark)
 	}
 }
+
+func isNameTok(t string) bool { return t[0] == 'n' || t[0] == 'm' }
 
 // cachedAnswerPieces: pieces whose answer records came out of the cache.
 func cachedAnswerPieces(recs []recTok) map[string]bool {
 	out := map[string]bool{}
 	for _, r := range recs {
-		if !r.ns && !r.fresh && r.tok[0] == 'n' {
+		if !r.ns && !r.fresh && isNameTok(r.tok) {
 			out[r.tok] = true
 		}
 	}
@@ -413,6 +443,8 @@ func markOf(rr dns.RR) int {
 	switch r := rr.(type) {
 	case *dns.A:
 		return int(r.A[3])
+	case *dns.AAAA:
+		return int(r.AAAA[15]) // an upstream AAAA carries its mark, a synthesised one the mark of its A
 	case *dns.SOA:
 		return int(r.Serial)
 	case *dns.RRSIG:
@@ -431,10 +463,20 @@ func markOf(rr dns.RR) int {
 	return -1
 }
 
-func replyRecs(qtok string, m *dns.Msg) []recTok {
+// replyRecs: side is 'm' when the reply to an AAAA question came from the
+// AAAA side of the cache (passed through by dns64), 'n' otherwise (A side:
+// plain A questions, and AAAA questions dns64 answered from the A response).
+func replyRecs(qtok string, m *dns.Msg, side byte) []recTok {
 	var out []recTok
 	tokOf := func(owner string, ns bool) string {
 		o := strings.TrimSuffix(strings.ToLower(owner), ".z.test.")
+		if side == 'm' {
+			if strings.HasPrefix(o, "ns.n") {
+				o = "ns.m" + o[4:]
+			} else if strings.HasPrefix(o, "n") {
+				o = "m" + o[1:]
+			}
+		}
 		if ns {
 			if strings.HasPrefix(o, "ns.") {
 				return o[3:]
@@ -527,9 +569,12 @@ type change struct {
 
 func (h *histT) changes() []change {
 	var out []change
-	for i := 0; i < nNames; i++ {
+	for i := 0; i < 2*nNames; i++ {
 		for _, sc := range []bool{false, true} {
 			k := slotKey{fmt.Sprintf("n%d", i), sc}
+			if i >= nNames {
+				k.tok = fmt.Sprintf("m%d", i-nNames)
+			}
 			v, ok := cache.VerifC04Peek(h.c, keyOf(k.tok, sc))
 			var cur *cache.CacheEntry
 			if ok {
@@ -606,7 +651,7 @@ func (h *histT) originOf(r recTok) (*orec, bool) {
 // judgeReply: the oracle for the records of one reply that came out of the
 // cache (pieces that were fetched from the upstream in this very op are
 // relayed, not cached, and are skipped).
-func (h *histT) judgeReply(qtok string, recs []recTok, freshCalls map[string]int) string {
+func (h *histT) judgeReply(qtok string, recs []recTok, freshCalls map[string]int, composition string) string {
 	verdict := ""
 	note := func(v string) {
 		if verdict == "" {
@@ -614,10 +659,11 @@ func (h *histT) judgeReply(qtok string, recs []recTok, freshCalls map[string]int
 		}
 	}
 	// which stored thing answered: monotonicity is per stored entry
-	holder := qtok + fmt.Sprintf("#%p", h.known[slotKey{qtok, false}])
+	// (and per kind of composition: dns64 caps the chain of the A answer at the synthetic TTL)
+	holder := qtok + composition + fmt.Sprintf("#%p", h.known[slotKey{qtok, false}])
 	for _, r := range recs {
 		if r.tok == qtok && r.mark >= 0 {
-			holder = fmt.Sprintf("%s#%d", qtok, r.mark)
+			holder = fmt.Sprintf("%s%s#%d", qtok, composition, r.mark)
 			break
 		}
 	}
@@ -786,7 +832,7 @@ func (h *histT) register(chs []change, script map[string]*specT, recs []recTok, 
 			cachedAns := cachedAnswerPieces(recs)
 			holderSeen := false
 			for _, t := range chainAfter(recs, c.k.tok) {
-				if t[0] != 'n' && t[0] != 's' {
+				if !isNameTok(t) && t[0] != 's' {
 					continue
 				}
 				var origins []*orec
@@ -822,6 +868,15 @@ func (h *histT) register(chs []change, script map[string]*specT, recs []recTok, 
 			}
 		}
 		o := &orec{gen: h.gens[c.k], admitV: h.V, life: life, lim: lim, lastShown: -1, mark: sp.mark}
+		o.negTTL = -1
+		if sp.kind == 'd' {
+			for _, it := range sp.ns {
+				if it.kind == 's' {
+					o.negTTL = min64(int64(it.ttl), it.a)
+					break
+				}
+			}
+		}
 		o.nsLife, o.nsLim = oracleLifetime(sp.ns, sp.ns, sp.negative(), false, 0, sp.lease)
 		if o.nsLife < life {
 			o.nsLife, o.nsLim = life, lim
@@ -859,7 +914,7 @@ func execHist(f []string) vlib.Res {
 	case "purge":
 		h.j++
 		h.sync()
-		h.c.Purge(dns.Question{Name: fq(f[2]), Qtype: dns.TypeA, Qclass: dns.ClassINET})
+		h.c.Purge(dns.Question{Name: fq(f[2]), Qtype: qtypeOf(f[2]), Qclass: dns.ClassINET})
 		chs := h.changes()
 		or := "ok"
 		for _, sc := range []bool{false, true} {
@@ -890,6 +945,8 @@ func execHist(f []string) vlib.Res {
 		return h.cutrec(f[2], f[3], f[4])
 	case "prec":
 		return h.prec(f[2], f[3], f[4])
+	case "get":
+		return h.storeGet(f[2])
 	}
 	return vlib.Res{Impl: "bad-op"}
 }
@@ -913,15 +970,22 @@ func (h *histT) query(route, tok string, ecs, do bool, up string) vlib.Res {
 	h.sync()
 	h.up.base, h.up.at = time.Now().Unix(), h.syncAt
 	f0, c0, k0 := cache.VerifC04Counters()
+	s0, b0 := dns64.VerifC04Counters()
 	reply := h.run(route, mkReq(tok, ecs, do))
 	f1, c1, k1 := cache.VerifC04Counters()
+	s1, b1 := dns64.VerifC04Counters()
+	synth64, basis64 := s1 > s0, b1 > b0
+	side := tok[0]
+	if side != 'm' || synth64 || basis64 {
+		side = 'n'
+	}
 	calls := h.up.answered
 	chs := h.changes()
 	h.settle(len(chs) > 0)
 	var recs []recTok
 	head := "miss"
 	if reply != nil {
-		recs = replyRecs(tok, reply)
+		recs = replyRecs(tok, reply, side)
 		markFresh(recs, calls, script)
 		if calls[tok] > 0 {
 			head = "fwd"
@@ -934,16 +998,37 @@ func (h *histT) query(route, tok string, ecs, do bool, up string) vlib.Res {
 	}
 	or := ""
 	if head != "miss" {
-		or = h.judgeReply(tok, recs, calls)
+		comp := ""
+		if synth64 && !basis64 {
+			comp = "+dns64"
+			if calls[tok] > 0 {
+				comp = "+dns64-of-fresh-nodata" // not a hit on the stored negative entry
+			}
+		}
+		or = h.judgeReply(tok, recs, calls, comp)
 	}
+
 	if v := h.register(chs, script, recs, calls, false); or == "" {
 		or = v
+	}
+	// (after register: a NODATA fetched in this op is in the ledger now)
+	if synth64 && !basis64 && or == "" {
+		or = h.judgeDNS64(tok, recs, script, calls)
 	}
 	if or == "" {
 		or = "ok"
 	}
 	// tags
 	tags := []string{"r=" + route}
+	nt := false
+	if synth64 && !basis64 {
+		tags = append(tags, "dns64=synth")
+		nt = true
+	} else if basis64 {
+		tags = append(tags, "dns64=a-basis")
+	} else if tok[0] == 'm' && reply != nil {
+		tags = append(tags, "dns64=pass")
+	}
 	switch {
 	case f1 > f0:
 		tags = append(tags, "via=bytes")
@@ -954,7 +1039,6 @@ func (h *histT) query(route, tok string, ecs, do bool, up string) vlib.Res {
 	case strings.HasPrefix(head, "hit"):
 		tags = append(tags, "via=msg")
 	}
-	nt := false
 	cached := 0
 	pieces := map[string]bool{}
 	for _, r := range recs {
@@ -1116,7 +1200,7 @@ func (h *histT) cutrec(k, itemS, leaseS string) vlib.Res {
 		or = fail("c/cutrec/outlives-"+lim, "stored=%ds permitted=%ds", got, life)
 	}
 	h.marks++
-	h.cuts[tok] = &orec{gen: h.marks, admitV: h.V, life: life, lim: lim, lastShown: -1, mark: -1}
+	h.cuts[tok] = &orec{gen: h.marks, admitV: h.V, life: life, lim: lim, nsLife: life, nsLim: lim, lastShown: -1, mark: -1}
 	return vlib.Res{Impl: fmt.Sprintf("t exp=%d", got), Oracle: or, Tags: "nt,lim=" + lim}
 }
 
@@ -1219,4 +1303,79 @@ func (h *histT) prec(k, itemS, leaseS string) vlib.Res {
 	h.origins[fmt.Sprintf("sz#%d", mark)] = so
 	h.origins[fmt.Sprintf("s%s#%d", k, mark)] = no
 	return vlib.Res{Impl: fmt.Sprintf("t soa=%d nsec=%d", gotS, gotN), Oracle: or, Tags: "nt,lim=" + limS}
+}
+
+
+// judgeDNS64: a synthesised AAAA answer is composed from the A answer and the
+// AAAA NODATA it replaces; it may not outlive the NODATA either.  When the
+// NODATA came out of the cache (an exact negative entry with an SOA) every
+// answer record must fit into what that entry has left; when it was fetched
+// in this op, into its negative TTL min(SOA TTL, SOA minimum) (RFC 6147 §5.1.7).
+func (h *histT) judgeDNS64(qtok string, recs []recTok, script map[string]*specT, answered map[string]int) string {
+	if qtok[0] != 'm' {
+		return ""
+	}
+	o := h.led[slotKey{qtok, false}]
+	if o == nil || o.negTTL < 0 {
+		return "" // the AAAA side was an alias chain / had no SOA: RFC 6147's 600 s ceiling applies
+	}
+	bound, what := o.admitV+o.life-h.V-1, "remaining-of-cached-nodata/"+o.lim
+	if answered[qtok] > 0 {
+		bound, what = o.negTTL, "negative-ttl-of-nodata"
+	}
+	for _, r := range recs {
+		if !r.ns && r.ttl > bound {
+			return fail("c/dns64/synthetic-ttl-exceeds-"+what, "record of %s shown=%d, the AAAA NODATA piece allows %d", r.tok, r.ttl, bound)
+		}
+	}
+	return ""
+}
+
+
+// storeGet: `c get <name>` — the resolver-private route Store.GetWithContext
+// (DS / DNSKEY / NS lookups take it): exact entry through ToMsg, else a
+// subtree cut, else a synthesised denial; whatever it hands out binds the
+// request tree (ResponseMeta) to its own lifetime.
+func (h *histT) storeGet(tok string) vlib.Res {
+	h.j++
+	waitRoom()
+	h.sync()
+	var meta middleware.ResponseMeta
+	ctx := middleware.WithResponseMeta(context.Background(), &meta)
+	msg, ok := cache.VerifC04Store(h.c).GetWithContext(ctx, mkReq(tok, false, true))
+	h.changes()
+	if !ok || msg == nil {
+		return vlib.Res{Impl: "miss", Oracle: "ok", Tags: "r=get"}
+	}
+	recs := replyRecs(tok, msg, tok[0])
+	if tok[0] != 'm' {
+		recs = replyRecs(tok, msg, 'n')
+	}
+	bound := "-"
+	var rel int64
+	if cu := meta.CutUntil(); !cu.IsZero() {
+		rel = h.ceilRel(h.virt(cu) - h.vnow())
+		bound = fmt.Sprint(rel)
+	}
+	or := h.judgeReply(tok, recs, map[string]int{}, "+get")
+	if or == "" {
+		// the request tree must be bound no later than the end of every piece handed out
+		if bound == "-" {
+			or = fail("c/get/request-tree-not-bound", "%s", tok)
+		}
+		for _, r := range recs {
+			if o, _ := h.originOf(r); o != nil && h.V+rel > o.admitV+o.nsLife {
+				or = fail("c/get/request-bound-later-than-piece/"+o.lim, "piece=%s bound=+%ds piece ends +%ds", r.tok, rel, o.admitV+o.nsLife-h.V)
+				break
+			}
+		}
+	}
+	if or == "" {
+		or = "ok"
+	}
+	impl := "hit"
+	if t := tokens(recs); t != "" {
+		impl += " " + t
+	}
+	return vlib.Res{Impl: impl + " bound=" + bound, Oracle: or, Tags: "r=get,nt"}
 }
